@@ -178,3 +178,55 @@ def mirror_fields(fields):
     cast = int(t[17]); nc = ((cast & 3) << 2) | ((cast >> 2) & 3)
     ep = int(t[16]); nep = 64 if ep == 64 else (7 - ep // 8) * 8 + ep % 8
     return ' '.join(['%x' % x for x in nb] + ['%x' % w, '%x' % b, '%x' % (w | b), '0' if t[15] == '1' else '1', str(nep), str(nc), t[18], t[19], '0'])
+
+
+def fields_from_board(board, side, cast=0, ep=64, half=0, full=1):
+    """board: dict square index (0 = a8) -> piece char"""
+    bbs = [0] * 12
+    for sq, ch in board.items(): bbs[PIECES.index(ch)] |= 1 << sq
+    w = 0
+    for k in range(6): w |= bbs[k]
+    b = 0
+    for k in range(6, 12): b |= bbs[k]
+    return ' '.join(['%x' % x for x in bbs] + ['%x' % w, '%x' % b, '%x' % (w | b), str(side), str(ep), str(cast), str(half), str(full), '0'])
+
+def pawn_grid(rng):
+    """for every pawn square and colour: a pawn with enemy men on both capture squares (and sometimes a blocker / double-push room)"""
+    out = []
+    for side in (1, 0):
+        for sq in range(8, 56):
+            r, c = divmod(sq, 8)
+            board = {sq: 'P' if side else 'p'}
+            fr = r - 1 if side else r + 1
+            enemy = 'nbrq' if side else 'NBRQ'
+            for dc in (-1, 1):
+                cc = c + dc
+                if 0 <= cc < 8 and rng.random() < 0.9: board[fr * 8 + cc] = rng.choice(enemy)
+            if rng.random() < 0.25: board[fr * 8 + c] = rng.choice(enemy)
+            free = [x for x in range(64) if x not in board and abs(x // 8 - r) + abs(x % 8 - c) > 2]
+            rng.shuffle(free)
+            if len(free) < 2: continue
+            board[free[0]] = 'K'; board[free[1]] = 'k'
+            out.append(fields_from_board(board, side))
+    return out
+
+def random_placements(rng, n):
+    out = []
+    for _ in range(n):
+        board = {}
+        squares = list(range(64)); rng.shuffle(squares)
+        board[squares.pop()] = 'K'; board[squares.pop()] = 'k'
+        for _ in range(rng.randrange(1, 14)):
+            ch = rng.choice('PPPNBRQpppnbrq')
+            sq = squares.pop()
+            if ch in 'Pp' and (sq < 8 or sq >= 56): continue
+            board[sq] = ch
+        cast = 0
+        if board.get(60) == 'K':
+            if board.get(63) == 'R' and rng.random() < 0.7: cast |= 1
+            if board.get(56) == 'R' and rng.random() < 0.7: cast |= 2
+        if board.get(4) == 'k':
+            if board.get(7) == 'r' and rng.random() < 0.7: cast |= 4
+            if board.get(0) == 'r' and rng.random() < 0.7: cast |= 8
+        out.append(fields_from_board(board, rng.randrange(2), cast, 64, rng.randrange(0, 60), rng.randrange(1, 80)))
+    return out
